@@ -533,6 +533,23 @@ func checkRestoreEvent(c *report.Ctx) {
 		if s, _ := an.ConstString(st.Val); s == "error" {
 			g := facts.Holds(st.Block(), func(ft an.Fact) bool { r, k := an.AsRel(ft); return k && r.Op == token.NEQ && an.IsNil(r.Y) })
 			if !g {
+				// ... or where the error returned from here on is one just made (fmt.Errorf / errors.New never return
+				// nil): the store stands in an arm that flows into the returned join with such a value
+				for _, e := range an.Exits(f) {
+					ph, isPhi := an.Strip(e.Vals[len(e.Vals)-1], false).(*ssa.Phi)
+					if !isPhi {
+						continue
+					}
+					for i, p := range ph.Block().Preds {
+						if p == st.Block() && i < len(ph.Edges) {
+							if cl, _ := an.CallOf(ph.Edges[i]); cl != nil && oneOf(an.Callee(cl), "fmt.Errorf", "errors.New") {
+								g = true
+							}
+						}
+					}
+				}
+			}
+			if !g {
 				okS = false
 			}
 		}
